@@ -143,7 +143,7 @@ Definition rel_from_chars (cap : option nat) (cs : list N) : outcome bytes :=
 
 (* UncertainName::from_chars: relative as above, otherwise into_name; the
    flag is true for an absolute name *)
-Definition uncertain_from_chars (cap : option nat) (cs : list N) : outcome (bool * bytes) :=
+Definition uncertain_from_chars_plain (cap : option nat) (cs : list N) : outcome (bool * bytes) :=
   match append_syms (S (length cs)) cap b_init cs with
   | Ok (_, Some e) => Err e
   | Ok (st, None) =>
@@ -151,6 +151,27 @@ Definition uncertain_from_chars (cap : option nat) (cs : list N) : outcome (bool
       else (do b <- b_into_name cap st; Ok (true, b))
   | Err e => Err e | Panic p => Panic p | OutOfFuel => OutOfFuel
   end.
+
+(* with uncertain_from_chars_root_special the function reads the first symbol
+   itself: a single dot is the root name, a dot followed by anything is an
+   empty label (an unreadable second symbol ends the iteration: the root is
+   built and Symbols::with then reports the kept error) *)
+Definition first_is_dot (cs : list N) : bool :=
+  match sym_next cs with Ok (Some (s, _)) => is_char s sym_dot | _ => false end.
+
+Definition uncertain_from_chars (cap : option nat) (cs : list N) : outcome (bool * bytes) :=
+  if uncertain_from_chars_root_special && first_is_dot cs then
+    match sym_next cs with
+    | Ok (Some (_, rest)) =>
+        match sym_next rest with
+        | Ok (Some _) => Err T_EmptyLabel
+        | Ok None => match raw_append cap [] const_from_symbols_root with Some b => Ok (true, b) | None => Err E_ShortBuf end
+        | Err e => Err e
+        | Panic p => Panic p | OutOfFuel => OutOfFuel
+        end
+    | _ => Err T_ShortInput
+    end
+  else uncertain_from_chars_plain cap cs.
 
 (* ---- Display for Label / Name *)
 Definition dec3 (b : N) : list N := [48 + b / 100; 48 + (b / 10) mod 10; 48 + b mod 10].
